@@ -111,6 +111,9 @@ func runC08Col(c *core.Case, ci int) *core.Result {
 		w.b.Idle(10e9)
 		c.Step("server incarnation %s is dead; starting a new one on the same store", w.b.App)
 		if err := w.b.Restart(); err != nil {
+			if bed.Environmental(err) {
+				return c.Inconclusive("the new server incarnation did not start for a reason of time or transport: %v", err)
+			}
 			return c.Violation("restart-failed", "a new server incarnation cannot start on the store left by the fault: %v", err)
 		}
 		return nil
